@@ -865,15 +865,28 @@ impl FrontendInternal {
         }
         self.check_state()?;
 
-        let mut buf: Vec<u8> = vec![0; hdr.get_size() as usize - mem::size_of::<T>()];
+        // The length of what follows the header is announced by the reply itself (a backend
+        // reports a failure with a payload-less reply), so read the header first instead of
+        // waiting for as many payload bytes as were requested.
         #[cfg(feature = "verif-hooks")]
         crate::verif::hit("fe.before_recv", &[0]);
-        let (reply, body, bytes, files) = self.main_sock.recv_payload_into_buf::<T>(&mut buf)?;
+        let (reply, files) = self.main_sock.recv_header()?;
+        let size = reply.get_size() as usize;
+        if size < mem::size_of::<T>() {
+            return Err(VhostUserError::InvalidMessage);
+        }
+        let (bytes, rbuf) = self.main_sock.recv_data(size)?;
+        if bytes != size {
+            return Err(VhostUserError::PartialMessage);
+        }
+        let mut body: T = Default::default();
+        body.as_mut_slice()
+            .copy_from_slice(&rbuf[..mem::size_of::<T>()]);
+        let buf = rbuf[mem::size_of::<T>()..].to_vec();
         if !reply.is_reply_for(hdr)
-            || reply.get_size() as usize != mem::size_of::<T>() + bytes
             || files.is_some()
             || !body.is_valid()
-            || bytes != buf.len()
+            || buf.len() != hdr.get_size() as usize - mem::size_of::<T>()
         {
             return Err(VhostUserError::InvalidMessage);
         }
